@@ -14,8 +14,19 @@
    `bij_inverse_map` = Bijection.map / inverse_map (ParseTreeMap.map_rec), `perm_inv` =
    Bijection._perm_inv REGENERATED from the source on every run (Gen/PermInv.v),
    `ctor_equiv` = Constructor.equiv.  `fuel` bounds the recursion of the executable models;
-   every statement holds for EVERY fuel for which the model returns an answer, or for every
-   fuel above an explicit bound.
+   the search TERMINATES (C12_search_terminates: explicit fuel bound computed from the two
+   specifications), its answer does not depend on the fuel (C12_fuel_irrelevant), and
+   `verdict exact s1 s2` is that answer = Isomorphism.check(spec1, spec2).
+
+   `exact : bool` selects the "recursive match" test (Iso/Model.v anc_pairs):
+     exact = false  as /repo: _ancestors holds product(eq_path1, eq_path2);
+     exact = true   the repair proposed in findings/C12_asymmetric_check.diff: _ancestors holds
+                    only the pair of current classes.
+   Every theorem below that mentions `exact` holds for BOTH.  The symmetry of the test holds for
+   all specifications with exact = true (C12_symmetric) and is FALSE with exact = false
+   (C12_symmetric_refuted: the open finding asymmetric-check-with-chained-equivalences); there
+   it holds for specifications without chained equivalence rules (C12_symmetric_flat).  The
+   harness detects which of the two the code under test implements and runs the model with it.
 
    Hypotheses on specifications (checked on every specification of every run by the
    harness, see harness/props/c12.py `wf`):
@@ -25,7 +36,8 @@
      wf_spec  = eq_wf, prod_wf and the root is not declared empty. *)
 From Coq Require Import ZArith List Bool Lia.
 From CSS Require Import Base.PyList Gen.PermInv Iso.Model Iso.Cert Iso.Valid Iso.PermProofs
-     Iso.Transport Iso.Search Iso.CertProofs Iso.Refl Iso.ReflTotal Iso.Complete Iso.EquivSym Iso.Symmetric.
+     Iso.Transport Iso.Search Iso.CertProofs Iso.Refl Iso.ReflTotal Iso.Complete Iso.EquivSym Iso.Symmetric
+     Iso.SearchSyn Iso.SymmetricFull Iso.Refuted Iso.Termination Iso.NoRaise Iso.Verdict.
 Import ListNotations.
 Open Scope Z_scope.
 
@@ -64,16 +76,16 @@ Proof. exact transport_bijection. Qed.
        valid certificate.  (The proof uses that a failing pair forgets the entries concluded
        under it — the repair 7890ace — and that a chained equivalence rule is only matched
        with an equivalence rule — the repair e943cb6.) *)
-Theorem C12_iso_cert : forall s1 s2, eq_wf s1 -> eq_wf s2 ->
-  forall fuel st, are_isomorphic s1 s2 fuel = Ok (true, st) -> valid_cert s1 s2 (om st).
-Proof. exact iso_sound. Qed.
+Theorem C12_iso_cert : forall exact s1 s2, eq_wf s1 -> eq_wf s2 ->
+  forall fuel st, are_isomorphic exact s1 s2 fuel = Ok (true, st) -> valid_cert s1 s2 (om st).
+Proof. intros exact s1 s2 W1 W2. exact (iso_sound s1 s2 W1 W2 exact). Qed.
 
 (* (2)+(3): the property for the models, end to end: when Bijection.construct returns a
    bijection its map is a size-preserving bijection between the (parse trees of the) objects
    of the two start classes and inverse_map undoes it in both directions.  When the search
    answers False (construct returns None) nothing is claimed. *)
-Theorem C12_constructed_bijection : forall s1 s2 fuel st,
-  wf_spec s1 -> wf_spec s2 -> are_isomorphic s1 s2 fuel = Ok (true, st) ->
+Theorem C12_constructed_bijection : forall exact s1 s2 fuel st,
+  wf_spec s1 -> wf_spec s2 -> are_isomorphic exact s1 s2 fuel = Ok (true, st) ->
   (forall t, wf_tree s1 (s_root s1) t ->
      exists u, wf_tree s2 (s_root s2) u /\ tsize s2 u = tsize s1 t /\
        (exists f0, forall f, (f0 <= f)%nat ->
@@ -83,7 +95,7 @@ Theorem C12_constructed_bijection : forall s1 s2 fuel st,
        (exists f0, forall f, (f0 <= f)%nat ->
           bij_inverse_map s1 s2 (om st) f u = Ok t /\ bij_map s1 s2 (om st) f t = Ok u)).
 Proof.
-  intros s1 s2 fuel st W1 W2 H. apply transport_bijection; auto.
+  intros exact s1 s2 fuel st W1 W2 H. apply transport_bijection; auto.
   eapply iso_sound; [apply W1|apply W2|exact H].
 Qed.
 
@@ -108,11 +120,11 @@ Qed.
         the same.  Proof: soundness (3) turns a True answer into a simulation, the converse of a
         simulation is one (Constructor.equiv, the atom test and the pairing of children are
         symmetric), and the search is COMPLETE for simulations (C12_search_complete). *)
-Theorem C12_symmetric_flat : forall s1 s2,
+Theorem C12_symmetric_flat : forall exact s1 s2,
   eq_wf s1 -> eq_wf s2 -> flat s1 -> flat s2 ->
   forall f f' b b' st st',
-    are_isomorphic s1 s2 f = Ok (b, st) ->
-    are_isomorphic s2 s1 f' = Ok (b', st') -> b = b'.
+    are_isomorphic exact s1 s2 f = Ok (b, st) ->
+    are_isomorphic exact s2 s1 f' = Ok (b', st') -> b = b'.
 Proof. exact check_symmetric_flat. Qed.
 
 (* completeness of the memoised backtracking search: if the roots are related by a relation
@@ -120,33 +132,106 @@ Proof. exact check_symmetric_flat. Qed.
    pairs, the search never answers False (the failure memo and the blacklist never hold a
    related pair; the loop cannot exhaust the stack while the element that continues the
    pairing is on it) *)
-Theorem C12_search_complete : forall s1 s2 (R : Z -> Z -> Prop),
+Theorem C12_search_complete : forall exact s1 s2 (R : Z -> Z -> Prop),
   (forall a b, R a b -> sim_ok s1 s2 R a b) -> R (s_root s1) (s_root s2) ->
-  forall fuel r st, are_isomorphic s1 s2 fuel = Ok (r, st) -> r = true.
+  forall fuel r st, are_isomorphic exact s1 s2 fuel = Ok (r, st) -> r = true.
 Proof. exact complete. Qed.
 
 (* Constructor.equiv is symmetric *)
 Theorem C12_ctor_equiv_sym : forall c1 c2, ctor_equiv c1 c2 = ctor_equiv c2 c1.
 Proof. exact ctor_equiv_sym. Qed.
 
-(* (4b') With chained (uncollapsed) equivalence rules only this is proved: if check(spec1, spec2)
-        is True then the inverted order map certifies the isomorphism in the other direction.
-        MISSING for "check(spec1, spec2) = check(spec2, spec1)" on such specifications: an ancestor
-        hit can accept a pair in the middle of two chains of different parity, which the search's
-        own local test would not accept when met outside that context; whether the two directions
-        can then differ is not decided by a theorem.  It is decided on every case by the oracle
-        (both directions are run on the implementation) and by the correspondence. *)
-Theorem C12_symmetric_partial : forall s1 s2, eq_wf s1 -> eq_wf s2 ->
-  forall fuel st, are_isomorphic s1 s2 fuel = Ok (true, st) ->
+(* (4b') SYMMETRY OF THE TEST, for ALL specifications (chained equivalence rules included, no
+        hypothesis at all), with the repaired recursive-match test (exact = true): whenever both
+        directions answer they give the same answer.  A True answer yields a simulation
+        (Iso/SearchSyn.v), its converse is one, and the search is complete for simulations. *)
+Theorem C12_symmetric : forall s1 s2 f f' b b' st st',
+  are_isomorphic true s1 s2 f = Ok (b, st) ->
+  are_isomorphic true s2 s1 f' = Ok (b', st') -> b = b'.
+Proof. exact symmetric_exact. Qed.
+
+(* ... and with the test of /repo (exact = false) symmetry FAILS on specifications with chained
+   equivalence rules: two well-formed specifications (Iso/Refuted.v; replayed on the real
+   Isomorphism.check by findings/C12_asymmetric_check.py) for which the search answers True one
+   way and False the other.  This is the open finding asymmetric-check-with-chained-equivalences. *)
+Theorem C12_symmetric_refuted :
+  exists s1 s2 f st st',
+    wf_spec s1 /\ wf_spec s2 /\
+    are_isomorphic false s1 s2 f = Ok (true, st) /\
+    are_isomorphic false s2 s1 f = Ok (false, st').
+Proof. exact symmetric_refuted. Qed.
+
+(* what remains true for both tests on arbitrary specifications: if check(spec1, spec2) is True
+   then the inverted order map certifies the isomorphism in the other direction (kept under its
+   old name; for exact = false the missing half is not provable: C12_symmetric_refuted) *)
+Theorem C12_symmetric_partial : forall exact s1 s2, eq_wf s1 -> eq_wf s2 ->
+  forall fuel st, are_isomorphic exact s1 s2 fuel = Ok (true, st) ->
   valid_cert s2 s1 (inverse_order (om st)).
 Proof.
-  intros s1 s2 W1 W2 fuel st H. apply C12_cert_symmetric. eapply iso_sound; eauto.
+  intros exact s1 s2 W1 W2 fuel st H. apply C12_cert_symmetric. eapply iso_sound; eauto.
+Qed.
+
+(* (5) TERMINATION: for every fuel above an explicit bound computed from the two specifications
+       (number of pairs of classes + a bound on the stack elements of one loop + 2) the search
+       answers; any two runs that answer give the same answer, and the state they leave. *)
+Theorem C12_search_terminates : forall exact s1 s2 f,
+  (fuel_bound s1 s2 <= f)%nat -> are_isomorphic exact s1 s2 f <> OutOfFuel.
+Proof. exact search_terminates. Qed.
+
+Theorem C12_fuel_irrelevant : forall exact s1 s2 f,
+  are_isomorphic exact s1 s2 f <> OutOfFuel ->
+  are_isomorphic exact s1 s2 f = check_result exact s1 s2.
+Proof. exact fuel_irrelevant. Qed.
+
+(* on closed specifications (every class met has a rule; rules with children are Rules with a
+   non-empty child) no exception is raised: check answers True or False *)
+Theorem C12_check_answers : forall exact s1 s2, closed_spec s1 -> closed_spec s2 ->
+  exists b, verdict exact s1 s2 = Ok b.
+Proof. exact verdict_total. Qed.
+
+(* (6) the statements without fuel.  verdict = Isomorphism.check. *)
+Theorem C12_check_symmetric : forall s1 s2, closed_spec s1 -> closed_spec s2 ->
+  verdict true s1 s2 = verdict true s2 s1.
+Proof. exact verdict_symmetric_exact_closed. Qed.
+
+Theorem C12_check_symmetric_flat : forall exact s1 s2,
+  eq_wf s1 -> eq_wf s2 -> flat s1 -> flat s2 -> closed_spec s1 -> closed_spec s2 ->
+  verdict exact s1 s2 = verdict exact s2 s1.
+Proof. exact verdict_symmetric_flat_closed. Qed.
+
+Theorem C12_check_reflexive : forall exact s,
+  eq_wf s ->
+  (forall c r, find_rule s c = Some r -> r_children r = [] -> r_atom r = true) ->
+  (forall c r, find_rule s c = Some r -> r_children r <> [] -> ne_children s r <> []) ->
+  (forall c r, find_rule s c = Some r -> r_children r <> [] -> r_isrule r = true) ->
+  (forall c r d, find_rule s c = Some r -> In d (ne_children s r) -> exists r', find_rule s d = Some r') ->
+  (exists r0, find_rule s (s_root s) = Some r0) ->
+  verdict exact s s = Ok true.
+Proof. exact verdict_reflexive. Qed.
+
+(* when check answers True, Bijection.construct returns a bijection with the order map of the
+   terminating run, and its map is a size-preserving bijection with a true inverse *)
+Theorem C12_check_true_bijection : forall exact s1 s2, wf_spec s1 -> wf_spec s2 ->
+  verdict exact s1 s2 = Ok true ->
+  exists st, check_result exact s1 s2 = Ok (true, st) /\
+    (forall t, wf_tree s1 (s_root s1) t ->
+       exists u, wf_tree s2 (s_root s2) u /\ tsize s2 u = tsize s1 t /\
+         (exists f0, forall f, (f0 <= f)%nat ->
+            bij_map s1 s2 (om st) f t = Ok u /\ bij_inverse_map s1 s2 (om st) f u = Ok t)) /\
+    (forall u, wf_tree s2 (s_root s2) u ->
+       exists t, wf_tree s1 (s_root s1) t /\ tsize s1 t = tsize s2 u /\
+         (exists f0, forall f, (f0 <= f)%nat ->
+            bij_inverse_map s1 s2 (om st) f u = Ok t /\ bij_map s1 s2 (om st) f t = Ok u)).
+Proof.
+  intros exact s1 s2 W1 W2 H.
+  destruct (verdict_true_cert exact s1 s2 (proj1 W1) (proj1 W2) H) as (st & R & Hc).
+  exists st. split; [exact R|]. apply transport_bijection; auto.
 Qed.
 
 (* (4c) Reflexivity on every closed specification whose verified (childless) classes are all
         atoms: check(s, s) is True — the search terminates with True for every fuel above
         (number of rules + largest number of children + 1); and for NO fuel does it answer False. *)
-Theorem C12_reflexive_atoms : forall s,
+Theorem C12_reflexive_atoms : forall exact s,
   eq_wf s ->
   (forall c r, find_rule s c = Some r -> r_children r = [] -> r_atom r = true) ->
   (forall c r, find_rule s c = Some r -> r_children r <> [] -> ne_children s r <> []) ->
@@ -154,13 +239,13 @@ Theorem C12_reflexive_atoms : forall s,
   (forall c r d, find_rule s c = Some r -> In d (ne_children s r) -> exists r', find_rule s d = Some r') ->
   forall r0, find_rule s (s_root s) = Some r0 ->
   forall fuel, (length (keys s) + arity_bound s + 1 <= fuel)%nat ->
-  exists st', are_isomorphic s s fuel = Ok (true, st').
+  exists st', are_isomorphic exact s s fuel = Ok (true, st').
 Proof. exact refl_total. Qed.
 
-Theorem C12_reflexive_never_false : forall s,
+Theorem C12_reflexive_never_false : forall exact s,
   (forall c r, find_rule s c = Some r -> r_children r = [] -> r_atom r = true) ->
   (forall c r, find_rule s c = Some r -> r_children r <> [] -> ne_children s r <> []) ->
-  forall fuel st', are_isomorphic s s fuel <> Ok (false, st').
+  forall fuel st', are_isomorphic exact s s fuel <> Ok (false, st').
 Proof. exact refl_never_false. Qed.
 
 (* Constructor.equiv (type and extra parameters up to renaming) is reflexive *)
@@ -207,7 +292,7 @@ Qed.
 (* the search finds them isomorphic, matching the union with the children permuted (the empty
    child 9 skipped) and the product with the factors exchanged, by recursion through the root *)
 Example C12_example_search :
-  exists st, are_isomorphic exA exB 20 = Ok (true, st) /\
+  exists st, are_isomorphic false exA exB 20 = Ok (true, st) /\
              om st = [((0, 0), [1; 0]); ((2, 2), [1; 0])].
 Proof. eexists. split; vm_compute; reflexivity. Qed.
 
@@ -249,11 +334,25 @@ Proof.
   inversion Hc; subst. eexists. split; reflexivity.
 Qed.
 
-Example C12_example_symmetric : exists st, are_isomorphic exB exA 20 = Ok (true, st).
+Example C12_example_symmetric : exists st, are_isomorphic true exB exA 20 = Ok (true, st).
 Proof. eexists. vm_compute. reflexivity. Qed.
 
-Example C12_example_reflexive : exists st, are_isomorphic exB exB 20 = Ok (true, st).
+Example C12_example_reflexive : exists st, are_isomorphic false exB exB 20 = Ok (true, st).
 Proof. eexists. vm_compute. reflexivity. Qed.
+
+Example C12_example_closed : closed_spec exA /\ closed_spec exB.
+Proof.
+  split; (split; [|split; [|split; [|eexists; reflexivity]]]).
+  - intros c r H E. rule_cases H; discriminate.
+  - intros c r d H Hin. rule_cases H; simpl in Hin; repeat (destruct Hin as [<-|Hin]; [eexists; reflexivity|]); destruct Hin.
+  - intros c r H N. rule_cases H; try (exfalso; apply N; reflexivity); split; (reflexivity || discriminate).
+  - intros c r H E. rule_cases H; try discriminate. exists 0, [], (unionR [2; 1; 9]). split; reflexivity.
+  - intros c r d H Hin. rule_cases H; simpl in Hin; repeat (destruct Hin as [<-|Hin]; [eexists; reflexivity|]); destruct Hin.
+  - intros c r H N. rule_cases H; try (exfalso; apply N; reflexivity); split; (reflexivity || discriminate).
+Qed.
+
+Example C12_example_verdict : verdict true exA exB = Ok true /\ verdict false exB exA = Ok true.
+Proof. split; vm_compute; reflexivity. Qed.
 
 Example C12_example_perm : is_perm [2; 0; 1] 3 /\ perm_inv [2; 0; 1] = [1; 2; 0].
 Proof.
@@ -271,7 +370,16 @@ Print Assumptions C12_cert_symmetric.
 Print Assumptions C12_symmetric_flat.
 Print Assumptions C12_search_complete.
 Print Assumptions C12_ctor_equiv_sym.
+Print Assumptions C12_symmetric.
+Print Assumptions C12_symmetric_refuted.
 Print Assumptions C12_symmetric_partial.
+Print Assumptions C12_search_terminates.
+Print Assumptions C12_fuel_irrelevant.
+Print Assumptions C12_check_answers.
+Print Assumptions C12_check_symmetric.
+Print Assumptions C12_check_symmetric_flat.
+Print Assumptions C12_check_reflexive.
+Print Assumptions C12_check_true_bijection.
 Print Assumptions C12_reflexive_atoms.
 Print Assumptions C12_reflexive_never_false.
 Print Assumptions C12_ctor_equiv_refl.
